@@ -634,9 +634,17 @@ class StmtMixin:
         self._havoc_types = {k.split('.')[-1]: v for k, v in spec.types.items() if '.' in k}
         self._havoc_fields = {}
         for loc in spec.modifies:
-            if loc == '$calls':
-                self.havoc_cell(VPtr(0), node)
-                self._havoc_set.add(0)
+            if loc == '$fields':
+                for key in list(self.st.ghost):
+                    if isinstance(key, tuple) and key and key[0] == 'field':
+                        self.st.ghost[key] = z3.Const(self.fresh_name('fieldarr'), self.st.ghost[key].sort())
+                self._havoc_set.add(-100)
+                self._havoc_all_fields = True
+                continue
+            if loc in ('$calls', '$yielded', '$sent'):
+                a = {'$calls': 0, '$yielded': -1, '$sent': -2}[loc]
+                self.havoc_cell(VPtr(a), node)
+                self._havoc_set.add(a)
                 continue
             locnode = self.parse_spec(loc)
             if isinstance(locnode, ast.Attribute):
